@@ -120,6 +120,7 @@ int drv_pure(void) {
       return 2;
     }
     clear_trace(trace);
+    fflush(stdout); /* what was answered before a fatal error must not be lost */
   }
   fflush(stdout);
   return 0;
